@@ -23,5 +23,33 @@ Fixpoint reads_ok (hist : list cmd) (cs : list cmd) (obs : list (list sout)) : b
        end) && reads_ok (hist ++ [c]) r ro
   | _, _ => true
   end.
+(* monitor on the observation alone: every notify-read that was not abandoned and whose key is written later (before any
+   reopen) completes -- at issue time if the key was present, else at the first later write of its key -- with that value *)
+Fixpoint notified (id : N) (obs : list (list sout)) : bool :=
+  match obs with [] => false | o :: r => existsb (fun x => match x with ONotify i _ => i =? id | _ => false end) o || notified id r end.
+Fixpoint cancelled_or_reopened (id : N) (cs : list cmd) : bool :=
+  match cs with [] => false | Cancel i :: r => (i =? id) || cancelled_or_reopened id r | Reopen :: _ => true | _ :: r => cancelled_or_reopened id r end.
+(* does a later write of key k happen before this waiter is cancelled / the store reopened? *)
+Fixpoint written_before_gone (k id : N) (cs : list cmd) : bool :=
+  match cs with
+  | [] => false
+  | Write k' _ :: r => (k =? k') || written_before_gone k id r
+  | Cancel i :: r => if i =? id then false else written_before_gone k id r
+  | Reopen :: _ => false
+  | _ :: r => written_before_gone k id r
+  end.
+Fixpoint waiters_ok (hist : list cmd) (cs : list cmd) (obs : list (list sout)) : bool :=
+  match cs, obs with
+  | c :: r, o :: ro =>
+      (match c with
+       | NotifyRead k id =>
+           match spec_map hist k with
+           | Some _ => notified id (o :: ro)
+           | None => negb (written_before_gone k id r) || notified id ro
+           end
+       | _ => true
+       end) && waiters_ok (hist ++ [c]) r ro
+  | _, _ => true
+  end.
 Definition store_case (cs : list cmd) (obs : list (list sout)) : list N :=
-  verdict_of [ b2n (forallb2 (forallb2 sout_eqb) (srun_ev (mkSt [] []) cs) obs); b2n (reads_ok [] cs obs) ].
+  verdict_of [ b2n (forallb2 (forallb2 sout_eqb) (srun_ev (mkSt [] []) cs) obs); b2n (reads_ok [] cs obs); b2n (waiters_ok [] cs obs) ].
